@@ -70,6 +70,13 @@ SCALINGS = [(1.0, 0.0), (2.0, 0.0), (0.5, 0.25), (-1.0, 0.0), (0.0, 1.0)]     # 
 METHODS = ('vector', 'scalar', 'wall')
 
 
+def _arr_scalings(n):
+    """array-valued (ref, ref0): orientation (ref > ref0 or ref < ref0) differs between entries"""
+    ref = [2.0, -1.0, 0.5][:n]
+    ref0 = [0.0, 1.0, 4.0][:n]
+    return [(ref, ref0), ([-0.5, 4.0, -2.0][:n], [0.25, 0.0, 0.0][:n])]
+
+
 # ------------------------------------------------------------------ enumeration
 
 def _patterns(n, tier):
@@ -106,7 +113,7 @@ def cases(tier, seed):
     for cfg in _ls_configs(tier):
         for meth in METHODS:
             for kind, pat in _patterns(2, tier):
-                for sc in SCALINGS:
+                for sc in SCALINGS + _arr_scalings(2):
                     for layout in ('xy', 'yx'):
                         if tier != 'quick' and layout == 'xy' and cfg.get('fam') in ('linear',
                                                                                       'cubic'):
@@ -125,7 +132,7 @@ def cases(tier, seed):
         for cfg in (dict(cls='BE'), dict(cls='AG', alpha=1.0, rejects=2, fam='script')):
             for meth in METHODS:
                 for kind, pat in _patterns(3, tier):
-                    for sc in (SCALINGS[0], SCALINGS[2], SCALINGS[3]):
+                    for sc in [SCALINGS[0], SCALINGS[2], SCALINGS[3]] + _arr_scalings(3):
                         out.append({'kind': 'grid', 'ls': cfg, 'method': meth, 'n': 3,
                                     'bounds': (kind, pat), 'scaling': sc, 'layout': 'yx',
                                     'pal': pal, 'lattice': 'r'})
@@ -296,7 +303,11 @@ def _sig_class(case):
     ls = case['ls']
     ref, ref0 = case['scaling']
     name = 'BoundsEnforceLS' if ls['cls'] == 'BE' else 'ArmijoGoldsteinLS'
-    return '%s/%s:%s%s' % (name, case['method'], 'ref<ref0' if ref < ref0 else 'ref>ref0',
+    if isinstance(ref, (list, tuple)):
+        orient = 'ref<>ref0_per_entry'
+    else:
+        orient = 'ref<ref0' if ref < ref0 else 'ref>ref0'
+    return '%s/%s:%s%s' % (name, case['method'], orient,
                            ':bounds_changed_by_resetup' if case['kind'].startswith('resetup')
                            else '')
 
